@@ -57,7 +57,18 @@ theorem rt_key_ne_sub (path : Bytes) : keyName ≠ subscribePrefix ++ path := by
 theorem rt_filt_ne_sub (path : Bytes) : filtName ≠ subscribePrefix ++ path := by
   rw [rt_filtName, rt_subscribePrefix]; intro h; injection h with h _; exact absurd h (by decide)
 
+theorem rt_key_noprefix : subscribePrefix.isPrefixOf keyName = false := by rw [rt_keyName, rt_subscribePrefix]; decide
+theorem rt_filt_noprefix : subscribePrefix.isPrefixOf filtName = false := by rw [rt_filtName, rt_subscribePrefix]; decide
+
 /-! ## `params` membership under `addParam` / removal -/
+
+theorem rt_contains_filter_keep {l : List Bytes} {p : Bytes → Bool} {m : Bytes} (h : p m = true) :
+    (l.filter p).contains m = l.contains m := by
+  rw [Bool.eq_iff_iff]
+  simp only [List.contains_iff_mem, List.mem_filter]
+  constructor
+  · exact fun h1 => h1.1
+  · exact fun h1 => ⟨h1, h⟩
 
 theorem rt_contains_add {l : List Bytes} {n m : Bytes} (h : m ≠ n) :
     (if l.contains n then l else l ++ [n]).contains m = l.contains m := by
@@ -296,7 +307,9 @@ theorem rt_subscribe (sv : Server) (sid : Nat) (path : Bytes) (f : Option Filt) 
         · refine RK.trans ?_ (rt_subscribeRefs ..)
           exact rt_updSess _ sid _ (by intro _; rfl)
     · intro t
-      simp only [rk, rt_contains_add (rt_key_ne_sub path), rt_contains_add (rt_filt_ne_sub path)]
+      simp only [rk, subParams, rt_contains_add (rt_key_ne_sub path), rt_contains_add (rt_filt_ne_sub path)]
+      rw [rt_contains_filter_keep (m := keyName) (by simp [rt_key_noprefix]),
+          rt_contains_filter_keep (m := filtName) (by simp [rt_filt_noprefix])]
 
 theorem rt_unsubscribe (sv : Server) (sid : Nat) (path : Bytes) : RK sv (unsubscribe sv sid path) := by
   unfold unsubscribe
